@@ -205,22 +205,25 @@ Proof.
   intro HL. unfold rlp_string.
   destruct b as [|x [|y b]].
   - (* empty *)
-    change (rlp_header 128 (N.of_nat (length (@nil byte))) ++ [] ++ rest) with (x80 :: rest).
+    change (rlp_split_string (x80 :: rest) = Some ([], rest)).
     unfold rlp_split_string. change (nb x80) with 128.
     change (128 <? 128) with false. change (128 <? 184) with true. change (128 - 128) with 0.
     cbn [N.to_nat firstn skipn].
     replace (N.of_nat (length rest) <? 0) with false by (symmetry; apply N.ltb_ge; lia). reflexivity.
   - (* one byte *)
     destruct (nb x <? 128) eqn:E.
-    + cbn [app rlp_split_string]. rewrite E. reflexivity.
-    + unfold rlp_header. cbn [N.leb N.compare Pos.compare Pos.compare_cont app rlp_split_string].
-      replace (nb (byte_of_N (128 + 1))) with 129 by reflexivity.
-      cbn -[nb]. rewrite E. reflexivity.
+    + cbn [app]. unfold rlp_split_string. rewrite E. reflexivity.
+    + change (rlp_split_string (x81 :: x :: rest) = Some ([x], rest)).
+      unfold rlp_split_string. change (nb x81) with 129.
+      change (129 <? 128) with false. change (129 <? 184) with true. change (129 - 128) with 1.
+      change (N.to_nat 1) with 1%nat. cbn [firstn skipn length].
+      replace (N.of_nat (S (length rest)) <? 1) with false by (symmetry; apply N.ltb_ge; lia).
+      rewrite E. reflexivity.
   - (* two or more *)
     set (s := x :: y :: b) in *. set (len := N.of_nat (length s)) in *.
     unfold rlp_header. fold (len_bytes len).
     destruct (len <=? 55) eqn:E; [apply N.leb_le in E | apply N.leb_gt in E].
-    + cbn [app rlp_split_string].
+    + cbn [app]. unfold rlp_split_string.
       rewrite nb_byte_of_N, N.mod_small by lia.
       replace (128 + len <? 128) with false by (symmetry; apply N.ltb_ge; lia).
       replace (128 + len <? 184) with true by (symmetry; apply N.ltb_lt; lia).
@@ -230,7 +233,7 @@ Proof.
       unfold len. rewrite Nat2N.id, firstn_app_exact, skipn_app_exact.
       subst s. reflexivity.
     + destruct (len_bytes_spec len) as (V & L & l0 & r & EQ & NZ); [lia|].
-      cbn [app rlp_split_string].
+      rewrite <- app_assoc. cbn [app]. unfold rlp_split_string.
       rewrite nb_byte_of_N, N.mod_small by lia.
       set (k := length (len_bytes len)) in *.
       replace (128 + 55 + N.of_nat k <? 128) with false by (symmetry; apply N.ltb_ge; lia).
@@ -363,10 +366,10 @@ Qed.
 
 Lemma from_hex_hex0x l : from_hex (hex0x l) = l.
 Proof.
-  unfold from_hex, hex0x. cbn [has0x Byte.eqb]. cbn [skipn].
-  replace (has0x (x30 :: x78 :: hex_lower l)) with true by reflexivity.
-  cbn [skipn]. rewrite length_hex_lower.
+  unfold from_hex, hex0x.
+  change (has0x (x30 :: x78 :: hex_lower l)) with true. cbn iota. cbn [skipn].
+  rewrite length_hex_lower.
   replace (N.odd (N.of_nat (2 * length l))) with false.
   - apply hex_decode_lower.
-  - symmetry. rewrite Nat2N.inj_mul. apply N.odd_mul_l. reflexivity.
+  - symmetry. rewrite Nat2N.inj_mul, N.odd_mul. reflexivity.
 Qed.
